@@ -112,6 +112,9 @@ func (c *Ctx) a8phase(cleanFields map[*types.Var]bool) *a8Model {
 			if strings.HasPrefix(name, "strconv.Parse") || name == "strconv.Atoi" {
 				return true, "number parsed from client/stored text (" + name + ")"
 			}
+			if strings.Contains(name, "encoding/binary") && strings.Contains(name, ".Uint") {
+				return true, "number decoded from a binary payload (" + name[strings.LastIndex(name, ".")+1:] + ")"
+			}
 		}
 		return false, ""
 	}
@@ -341,10 +344,16 @@ func (m *a8Model) guardEstablishes(d *ssa.BasicBlock, idx int, v ssa.Value, side
 	rv := a8root(v)
 	var other ssa.Value
 	op := bo.Op
+	// for the mere existence of an upper bound a constant added to or subtracted from the compared value is
+	// irrelevant:  v-1 > len(x)-6  bounds v just as  v > len(x)  does
+	lhs, rhs := a8root(bo.X), a8root(bo.Y)
+	if side == sideUpper {
+		lhs, rhs = a8root(stripConstOffset(bo.X)), a8root(stripConstOffset(bo.Y))
+	}
 	switch {
-	case sameA8(a8root(bo.X), rv):
+	case sameA8(lhs, rv):
 		other = bo.Y
-	case sameA8(a8root(bo.Y), rv):
+	case sameA8(rhs, rv):
 		other = bo.X
 		// mirror: c OP v  ==  v OP' c
 		switch op {
@@ -406,6 +415,27 @@ func (m *a8Model) guardEstablishes(d *ssa.BasicBlock, idx int, v ssa.Value, side
 		}
 	}
 	return false
+}
+
+// stripConstOffset: v ± constant (through integer conversions) -> v
+func stripConstOffset(v ssa.Value) ssa.Value {
+	for i := 0; i < 6; i++ {
+		v = a8root(v)
+		bo, ok := v.(*ssa.BinOp)
+		if !ok || (bo.Op != token.ADD && bo.Op != token.SUB) {
+			return v
+		}
+		if _, isC := bo.Y.(*ssa.Const); isC {
+			v = bo.X
+			continue
+		}
+		if _, isC := bo.X.(*ssa.Const); isC && bo.Op == token.ADD {
+			v = bo.Y
+			continue
+		}
+		return v
+	}
+	return v
 }
 
 func isLenLike(v ssa.Value) bool {
